@@ -151,6 +151,10 @@ def step (st : St) (j : Json) : Except String (St × Json × List Fired) := do
                  else if wasR1 && g.queued > 0 then { st1 with groupPub := st.acc.getD 0 none } else st1
       pure (st2, Err.ok)
     | _ => throw s!"unknown op {op}"
+  -- a member speaks once per round: a second submission of the same round (a replay, or a retry after its first one was
+  -- recorded) is refused, whatever else happened to the store in between
+  if e == .alreadySubmit && ierr == "" then
+    fired := fired ++ [{ name := "replayed_round_submission_accepted", detail := mkObj [("op", js op), ("member", (j.getObjVal? "mid").toOption.getD Json.null)] }]
   -- ===== property monitors on the implementation's observation =====
   let istatus := (jnat out "status").toOption.getD 0
   let imembers := (jarr out "members").toOption.getD []
